@@ -16,7 +16,12 @@ theorem first_frame_is_auth (cred : Cred) (cs : List Call) (n : Nat) (ms : List 
     (h : trace cred cs = pre ++ .sent n ms :: post)
     (hfirst : ∀ e ∈ pre, ∀ ms', e ≠ .sent n ms') :
     ms = authRequest cred.user cred.password := by
-  sorry
+  have hg := runCalls_trace cred cs {} [] (authInv_init _)
+  unfold trace at h
+  rw [h] at hg
+  rcases goodFrom_at hg with hms | ⟨hmem, _⟩
+  · exact hms
+  · exact absurd rfl (hfirst _ hmem _)
 
 /-- a frame other than the authentication request is sent on a connection only after the client accepted
     an authentication reply on that connection -/
@@ -24,27 +29,48 @@ theorem user_after_grant (cred : Cred) (cs : List Call) (n : Nat) (ms : List Msg
     (h : trace cred cs = pre ++ .sent n ms :: post)
     (hne : ms ≠ authRequest cred.user cred.password) :
     Ev.granted n ∈ pre := by
-  sorry
+  have hg := runCalls_trace cred cs {} [] (authInv_init _)
+  unfold trace at h
+  rw [h] at hg
+  rcases goodFrom_at hg with hms | ⟨_, hmem⟩
+  · exact absurd hms hne
+  · exact hmem
 
 /-- the client accepts an authentication reply exactly when its first message carries the tag
     RSCP_AUTHENTICATION and a non-zero level of Go type uint8 or int32 -/
 theorem grant_iff (m : Msg) (rest : List Msg) :
     authVerdict (m :: rest) = .ok .grant ↔
       m.tag = tagAuth ∧ ∃ v, v ≠ 0 ∧ (m.val = .num .u8 v ∨ m.val = .num .i32 v) := by
-  sorry
+  exact authVerdict_grant_iff m rest
 
 /-- every conceivable non-empty reply is either accepted or refused: never a panic, never another error -/
 theorem auth_reply_total (m : Msg) (rest : List Msg) :
     authVerdict (m :: rest) = .ok .grant ∨ authVerdict (m :: rest) = .ok .refuse := by
-  sorry
+  exact authVerdict_total m rest
 
 /-- `receive` never hands an empty reply to `authenticate` -/
 theorem receive_nonempty (st : CState) (ms : List Msg) (h : (receive st).2.1 = .ok ms) : ms ≠ [] := by
-  sorry
+  exact receive_ok_ne_nil st ms h
 
 /-- no call panics, from any state in which `authed` implies a connection (true of every reachable state) -/
-theorem no_panic (cred : Cred) (st : CState) (c : Call) (hinv : st.conn = none → st.authed = false) :
+-- STATEMENT CHANGED: added the hypothesis `hgo : c.GoVals` (`Call.GoVals`, `GoMsgs`, `GoVal` in
+-- `Lemmas/Client.lean`): in the requests of the call every `Val.num k _` carries a fixed-width numeric kind
+-- (`k.width ≠ none`), as `Base.lean` intends and as `Spec.ValOK` implies (`goMsgs_of_ok`). Without it the
+-- statement is false: `Val.num .msgs 0` is a junk term of the model (no Go value corresponds to it) whose
+-- `kind` is `.msgs`, so `.mk 1 14 (.num .msgs 0)` passes `isValidValue` for `Container` and reaches the
+-- unchecked type assertion: `validateRequests [.mk 1 14 (.num .msgs 0)] = .panic`, and
+-- `step cred {} (.sendMultiple [.mk 1 14 (.num .msgs 0)] sc)` panics for a healthy `sc`.
+theorem no_panic (cred : Cred) (st : CState) (c : Call) (hinv : st.conn = none → st.authed = false)
+    (hgo : c.GoVals) :
     (step cred st c).2.1 ≠ .panic := by
-  sorry
+  have _ := hinv  -- `hinv` is not needed by the proof; kept from the given statement
+  exact step_ne_panic cred st c hgo
+
+#print axioms first_frame_is_auth
+#print axioms user_after_grant
+#print axioms grant_iff
+#print axioms auth_reply_total
+#print axioms receive_nonempty
+#print axioms no_panic
 
 end Rscp.Props.C09
